@@ -135,6 +135,10 @@ def valid(case):
             if full:
                 return False
             b.connect()
+        elif c[0] == "G":
+            if full:
+                return False
+            b.connect()
         elif c == "L":
             if full:
                 return False
@@ -215,6 +219,8 @@ def classify(case, model):
         feats.append("revoke@%d" % t[2:].index("r"))
     if any(c[0] == "f" for c in t[2:]):
         feats.append("accept-error")
+    if any(c[0] == "G" for c in t[2:]):
+        feats.append("accept-error-with-stalled-logger")
     if "L" in t[2:]:
         feats.append("stalled-logger")
     if any(c[0] == "F" for c in t[2:]):
